@@ -354,6 +354,11 @@ func Send(method, rawurl string, options ...SendOption) (*http.Response, error) 
 			if d == backoff.Stop {
 				break // Backoff timed out.
 			}
+			if !rewindBody(req) {
+				// The attempt consumed the request body and it cannot be
+				// replayed. Never resend a request with a partial body.
+				break
+			}
 			time.Sleep(d)
 			continue
 		}
@@ -472,6 +477,24 @@ func newRequest(method string, opts *sendOptions) (*http.Request, error) {
 		req.Header.Set(key, val)
 	}
 	return req, nil
+}
+
+// rewindBody restores req.Body to the complete original body, such that req can
+// be sent again after a previous attempt consumed (and closed) the body. Returns
+// false if the body cannot be replayed.
+func rewindBody(req *http.Request) bool {
+	if req.Body == nil || req.Body == http.NoBody {
+		return true
+	}
+	if req.GetBody == nil {
+		return false
+	}
+	body, err := req.GetBody()
+	if err != nil {
+		return false
+	}
+	req.Body = body
+	return true
 }
 
 func fallbackToHTTP(
